@@ -392,22 +392,23 @@ def tstep (cfg : Cfg) (sh : Sh) (me : Tid) (th0 : Th) : Option (Sh × Th) :=
 method (index into Close, Len, ReadFrom, WriteTo, Read, Write, ReadPeek, ReadWait,
 ReadCommit, WriteWait, WriteCommit, waitForWriteSpace) the marks, lock operations
 (`1000 + 2·op + mx`, op 0 Lock 1 Unlock 2 Wait 3 Broadcast, mx 0 pcond 1 ccond),
-calls of ring methods (`1300 + k`), `defer Close` (1200) and returns (1100) in source
-order.  `Proofs.Ring.ring_lock_facts` equates it with the list regenerated from the
+calls of ring methods (`1300 + k`), `defer Close` (1200), returns (1100) and the cursor /
+`done` accesses (1400 pseq.get, 1401 cseq.get, 1402 pseq.set, 1403 cseq.set, 1404 isDone) in
+source order.  `Proofs.Ring.ring_lock_facts` equates it with the list regenerated from the
 source, `Proofs.Ring.lockFacts_steps` with what `tstep` does at each mark. -/
 def lockFacts : List (Nat × List Nat) := [
   (0, [10, 11, 1000, 12, 1006, 13, 1002, 14, 1001, 15, 1007, 16, 1003, 1100]),
-  (1, [20, 21, 1100]),
-  (2, [1200, 110, 1100, 1311, 1100, 111, 1310, 1100, 1100]),
-  (3, [1200, 120, 1100, 1306, 121, 1100, 1308, 1100, 1100]),
-  (4, [60, 1301, 1100, 61, 62, 63, 64, 65, 1000, 66, 1006, 67, 1002, 1100, 68, 69, 70, 1000, 71, 1006, 72, 1002, 1100, 73, 1001, 74, 75, 76, 1003, 1100, 77, 1005, 78, 79, 1003]),
-  (5, [40, 1100, 1311, 1100, 41, 42, 43, 1001, 44, 1007, 45, 1003, 1100]),
-  (6, [1100, 1100, 80, 81, 82, 1001, 83, 84, 85, 1003, 1100, 86, 1005, 87, 88, 1003, 89, 1100, 1100, 1100]),
-  (7, [1100, 1100, 90, 91, 92, 1001, 93, 94, 95, 1003, 1100, 96, 1005, 97, 98, 1003, 99, 1100, 1100]),
-  (8, [1100, 1100, 100, 101, 102, 103, 1000, 104, 1006, 105, 1002, 1100, 1100]),
+  (1, [20, 1401, 21, 1400, 1100]),
+  (2, [1200, 110, 1404, 1100, 1311, 1100, 111, 1310, 1100, 1100]),
+  (3, [1200, 120, 1404, 1100, 1306, 121, 1100, 1308, 1100, 1100]),
+  (4, [60, 1404, 1301, 1100, 61, 1401, 62, 1400, 63, 64, 1403, 65, 1000, 66, 1006, 67, 1002, 1100, 68, 69, 1403, 70, 1000, 71, 1006, 72, 1002, 1100, 73, 1001, 74, 1400, 1400, 75, 1404, 76, 1003, 1100, 77, 1005, 78, 79, 1003]),
+  (5, [40, 1404, 1100, 1311, 1100, 41, 42, 1402, 43, 1001, 44, 1007, 45, 1003, 1100]),
+  (6, [1100, 1100, 80, 1401, 81, 1400, 82, 1001, 83, 1400, 1400, 84, 1404, 85, 1003, 1100, 86, 1005, 87, 88, 1003, 89, 1100, 1100, 1100]),
+  (7, [1100, 1100, 90, 1401, 91, 1400, 92, 1001, 93, 1400, 1400, 94, 1404, 95, 1003, 1100, 96, 1005, 97, 98, 1003, 99, 1100, 1100]),
+  (8, [1100, 1100, 100, 1401, 101, 1400, 102, 1403, 103, 1000, 104, 1006, 105, 1002, 1100, 1100]),
   (9, [1311, 1100, 1100, 1100]),
-  (10, [1311, 1100, 50, 51, 1001, 52, 1007, 53, 1003, 1100]),
-  (11, [1100, 30, 1100, 31, 32, 1000, 33, 34, 35, 1002, 1100, 36, 1004, 37, 38, 1002, 1100])]
+  (10, [1311, 1100, 50, 1402, 51, 1001, 52, 1007, 53, 1003, 1100]),
+  (11, [1100, 30, 1404, 1100, 31, 1400, 32, 1000, 33, 1401, 1401, 34, 1404, 35, 1002, 1100, 36, 1004, 37, 38, 1002, 1100])]
 
 /-- one program counter per mark, in the order of `lockFacts` (locals irrelevant for the lock operation performed) -/
 def markPcs : List Pc := [
